@@ -458,15 +458,17 @@ NetRead(c) ==
                    advUsed, pubs, forged>>
 
 \* incomingMessageWorker: processPubsubMessage -> processContainerMessage -> deliver (snapshot)
-Process(e) ==
-    /\ e \in inbox
-    /\ inbox' = inbox \ {e}
+Handle(e) ==
     /\ IF Verdict(e) = "delivered"
           THEN /\ BC!StartDeliverC(MsgOf(e), 0)
                /\ forged' = IF e.author # e.inner THEN forged \cup {MsgOf(e)} ELSE forged
           ELSE UNCHANGED <<bcVars, forged>>
     /\ UNCHANGED <<clock, fwRvars, fwSvars, chainVars, hsVars, sessVars, connVars, ticks, rt1Vars, rt2Vars,
                    wire, advUsed, pubs, readLog>>
+Process(e) ==
+    /\ e \in inbox
+    /\ inbox' = inbox \ {e}
+    /\ Handle(e)
 
 \* A writes an envelope to a connection it has; its own messages take the next number of its counter
 AdvInject(n, e) ==
